@@ -49,6 +49,18 @@ CLAIMED = {
             "TLC checks over every log of the global family that global rules are enforced (threshold over all principals, block-force-push against the previous unskipped state, also where no delegation rule protects the reference) and that stripping the global rules from every policy never turns an accepted history into a rejected one; sampled histories are replayed on twin repositories (with and without the global rules) and TLC judges both verdicts.",
             "Controller-declared global rules are not concretised (own root only).",
             "DESIGN.md section 4 C11"),
+    "C02": ("Verify.tla (PoliciesOK, LoadStateOK, modes), MC_Verify.tla (family chain, C02Refines), Trace_Verify.tla (Prop=C02)",
+            "TLC enumerates logs whose policy entries are independently chain-valid / self-valid at every position relative to the reference entries and proves, for full, latest-only and from-entry verification, that the coded workflow fails whenever a policy entry it depends on breaks the chain of trust or self-validity and that the modes agree; the logs are concretised with real defective metadata (root replaced by a key the previous root did not sign for, version rollback, primary rule file signed by a stranger) and all modes are run and judged by TLC.",
+            "Chain / self validity are abstracted to two flags per policy entry, realised by three concrete defects; delegated rule files and VerifyMergeable are not exercised here.",
+            "DESIGN.md section 4 C02"),
+    "C09": ("Verify.tla (Approvers upper/lower bound, VerifyEntryI), MC_Verify.tla (family approvals), Trace_Verify.tla (Prop=C09)",
+            "TLC enumerates attestation states holding authorizations and code-review approvals stored at matching or mismatching paths, whose signed statements name the change or another one, signed by trusted / untrusted principals and by the app's key or a stranger, for trusted and untrusted apps, and proves that what the coded lookup counts lies between the approvals bound to the change at its own path and the statement-bound approvals stored anywhere; the states are written as raw blobs into refs/gittuf/attestations (bypassing the validating setters) and VerifyRefFull is judged by TLC.",
+            "One pending change of one reference per attestation state; dismissed approvers disjoint from approvers; tags not covered.",
+            "DESIGN.md section 4 C09"),
+    "C13": ("Metadata.tla, MC_Metadata.tla, Trace_Metadata.tla",
+            "TLC explores every sequence of rule-file and root edits with valid and invalid arguments up to the bound and proves well-formedness inductive over accepted edits and refused edits without effect; one history per distinct state is replayed on tufv02 and tufv01 objects, and TLC checks after every edit the acceptance, the well-formedness of the observed metadata and the equality of the live, reloaded and migrated projections.",
+            "Rule-name uniqueness across files, propagation directives and controller/network edits are not modelled yet.",
+            "DESIGN.md section 4 C13"),
 }
 
 NOT_YET = {
